@@ -75,6 +75,32 @@ fn main() {
                     chia_bls::aggregate_verify_gt(&s, gts.clone()), chia_bls::aggregate_verify_gt(&p.sigs[0][1], gts));
             }
         }
+        "debug-collide" => {
+            // search scalars a, s with fingerprint([a]G) == fingerprint([s]G + T) for the pool's
+            // first G1 torsion point T (birthday search over two sets of n keys)
+            let p = c15::pool();
+            let n: u64 = args.get(2).and_then(|x| x.parse().ok()).unwrap_or(150_000);
+            let t = p.g1_torsion[0].clone();
+            let g = chia_bls::PublicKey::generator();
+            let mut map = std::collections::HashMap::new();
+            let mut cur = g.clone();
+            for a in 1..=n {
+                if a > 1000 {
+                    map.insert(cur.get_fingerprint(), a);
+                }
+                cur += &g;
+            }
+            let mut cur = &g + &t;
+            for s in 1..=n {
+                if s > 1000 {
+                    if let Some(a) = map.get(&cur.get_fingerprint()) {
+                        println!("COLLIDE_A={a} COLLIDE_S={s} fingerprint={:08x} valid={}", cur.get_fingerprint(), cur.is_valid());
+                    }
+                }
+                cur += &g;
+            }
+            println!("collide in pool: {}", p.collide.is_some());
+        }
         "list" => {
             println!("C03\nC05\nC10\nC15\nC18");
         }
